@@ -750,7 +750,7 @@ def part_domination(ctx):
     ctx.extra["constants_read_from_source"] = consts
     stats = {"points": 0, "sup": 0.0, "argsup": None}
     Ls = [1.0] + ([rng.choice([0.5, 2.0, 3.7, 10.0, 0.123])] if ctx.quick else [0.5, 2.0, 3.7, 10.0, 0.123])
-    budget_s = ctx.n(20.0, 240.0)
+    budget_s = ctx.n(20.0, 300.0)
     t_end = time.time() + budget_s
     try:
         for li, L in enumerate(Ls):
